@@ -991,11 +991,19 @@ fn log_of(doc: &Sexp, vars: &Sexp) -> Sexp {
     }
 }
 
+/// the `#[graphql(secret)]` attributes written in the schema above, by hand: the registry must
+/// carry exactly these flags (derive/src/{object,input_object,interface,subscription}.rs)
+const EXPECTED_SECRETS: &str = r#"(secrets (args ("Mutation" "setPassword" "new") ("Mutation" "setPassword" "old") ("Node" "verify" "key") ("Query" "login" "token") ("Query" "login" "vault") ("Query" "node" "key") ("Session" "refresh" "token") ("Subscription" "watch" "token") ("User" "auth" "password") ("User" "friends" "tokens")) (inputs ("Cred" "pass") ("Cred" "keys") ("Deep" "code") ("Inner" "pin") ("Inner" "sealed")))"#;
+
 fn run(case: &Sexp, dist: &mut Dist) -> Sexp {
     let a = case.args();
     let same = SD.with(|sd| a[0] == sd.to_sexp() && a[1] == sd.secrets_sexp());
     if !same {
         return node("bad-schema", vec![]);
+    }
+    if a[1].to_string() != EXPECTED_SECRETS {
+        // a secret attribute did not reach the registry (or one appeared from nowhere)
+        return node("secret-flags-differ", vec![]);
     }
     let out_a = log_of(&a[2], &a[3]);
     let out_b = log_of(&rename(&a[2]), &rename(&a[3]));
